@@ -940,6 +940,21 @@ func genC14(r *simrt.Rand, tier string) any {
 			sc.Stalls = append(sc.Stalls, simfs.Fault{Op: "File.WriteAt", Nth: 1 + r.Int(3), Kind: []string{"short", "shortok"}[r.Int(2)], Short: r.Int(3), Repeat: r.Pct(50)})
 		}
 	}
+	if r.Pct(10) {
+		// multi-step procedures with a backend error at EVERY position in turn: one client sends a run of
+		// CREATE / MKDIR / SYMLINK / RENAME / REMOVE calls in the export root (half of the names exist), and
+		// one lstat/stat somewhere in the run fails - the second existence check of a CREATE, the look-up after
+		// it, the attribute fetch for the wcc data ... each failure arm is a reply like any other
+		sc.Pol, sc.Admin, sc.Stalls, sc.Segment = PolSpec{}, nil, nil, false
+		cl := WireClient{Addr: wireAddrs[1]}
+		for i, n := 0, 5+r.Int(6); i < n; i++ {
+			cl.Calls = append(cl.Calls, WireCall{Prog: nfsclient.ProgNFS, Vers: 3, Proc: []uint32{8, 8, 8, 9, 10, 14, 12, 13}[r.Int(8)], Target: 0, Seed: r.Uint64(), Flavor: 1})
+		}
+		sc.Clients = []WireClient{cl}
+		for i, n := 0, 1+r.Int(2); i < n; i++ {
+			sc.Stalls = append(sc.Stalls, simfs.Fault{Op: []string{"Lstat", "Lstat", "Stat", ""}[r.Int(4)], Nth: 1 + r.Int(40), Kind: "eio"})
+		}
+	}
 	return sc
 }
 
@@ -1147,15 +1162,15 @@ func shrinkWire(scAny any) []any {
 func init() {
 	wireReal := append([]string{"UpdatePolicyOptions", "ValidateAuthentication", "accept-time IP filter", "rate limiting in the connection loop"}, seqReal...)
 	Register(&Prop{ID: "C14", Level: "exploration",
-		Rule: "one case = 1-3 clients each sending 3-12 calls drawn from all 22 NFSv3 and 6 MOUNT procedures (v1 and v3) with well-formed arguments against handles of a file, directory, symlink, root, a never-issued and a stale handle, or arguments truncated at a 4-byte boundary, replaced by garbage, with a length word overwritten by 2^31/2^32-1/limit+1, or with trailing words; unknown programs, versions, procedures and credential flavors; under a drawn initial policy (read-only, rate limiting with per-client burst 1, or rate limiting with generous request limits and per-operation limits of 1/s for MNT, READDIR and large I/O with those calls repeated) and, in 60% of runs, a backend call stalled for 30 ms-6 s with a policy update issued on top of it (so arriving calls hit the drain window), in 35% of runs 1-3 backend errors (EIO/ENOSPC/EACCES on a drawn or on any backend operation, once or repeating) so that the failure arms of the procedures are produced from real backend errors, random scheduler, optional stream segmentation; monitor on every reply: strict RFC 1831 reply decode, XID echo, and strict decode of the result as the RFC 1813 / MOUNT result type of its procedure and status (nfsstat3 / mountstat3 membership, exact consumption); the same monitor runs in every other server-level check; non-trivial = every run (at least one reply decoded); distinct by event digest",
+		Rule: "one case = 1-3 clients each sending 3-12 calls drawn from all 22 NFSv3 and 6 MOUNT procedures (v1 and v3) with well-formed arguments against handles of a file, directory, symlink, root, a never-issued and a stale handle, or arguments truncated at a 4-byte boundary, replaced by garbage, with a length word overwritten by 2^31/2^32-1/limit+1, or with trailing words; unknown programs, versions, procedures and credential flavors; under a drawn initial policy (read-only, rate limiting with per-client burst 1, or rate limiting with generous request limits and per-operation limits of 1/s for MNT, READDIR and large I/O with those calls repeated) and, in 60% of runs, a backend call stalled for 30 ms-6 s with a policy update issued on top of it (so arriving calls hit the drain window), in 35% of runs 1-3 backend errors (EIO/ENOSPC/EACCES on a drawn or on any backend operation, once or repeating) so that the failure arms of the procedures are produced from real backend errors, random scheduler, optional stream segmentation; monitor on every reply: strict RFC 1831 reply decode, XID echo, and strict decode of the result as the RFC 1813 / MOUNT result type of its procedure and status (nfsstat3 / mountstat3 membership, exact consumption); the same monitor runs in every other server-level check; 10% of the cases are a run of CREATE/MKDIR/SYMLINK/RENAME/REMOVE/RMDIR calls in the export root (half of the names exist) with one or two lstat/stat failures at a drawn position 1-40, so that every failure arm of the multi-step procedures is reached in turn; non-trivial = every run (at least one reply decoded); distinct by event digest",
 		Gen:  genC14, New: func() any { return &WireScn{} }, Run: runWire, Shrink: shrinkWire, Real: wireReal, Stubbed: seqStubbed})
 	Register(&Prop{ID: "C15", Level: "exploration",
-		Rule: "one case = 1-3 hostile connections each performing 2-7 actions from {valid call, two calls back to back, call split into up to 60 fragments incl. empty ones, two messages in one record, single bit flip, random bytes, fragment header declaring 2^31-1 bytes, credential length 2^32-1, truncated record followed by close, a record of 5-12 fragments of 512 KiB whose first fragment is a complete valid call (must be refused, never answered), READDIR/READDIRPLUS with cookies >= 2^63, 3-6 pipelined calls in one write}, under no, strict or per-operation rate limiting, plus one well-behaved probe connection, all interleaved by the random scheduler with arbitrary transport segmentation; network faults on half of the hostile connections: a client that pipelines 20-80 calls behind a 256-4096 byte window and does not read for 1-100 s (the server's writes block; what it reads afterwards must be an in-order duplicate-free prefix of the answers), client->server or server->client streams cut after 1-400 bytes (mid-record, mid-reply; lost replies on such a connection are not held against the server); oracle: no panic escapes any goroutine; every well-formed call is answered once, in order, with its XID (also on the probe connection afterwards); after an undecodable stream the server closes the connection within its read timeout (75 simulated s); runtime TotalAlloc growth while the server digests a hostile message stays below 8 MiB (judged in runs without megabyte-sized client traffic); after the last call nothing more arrives (a call is answered at most once); replies that do come decode strictly; non-trivial = every run; distinct by event digest",
+		Rule: "one case = 1-3 hostile connections each performing 2-7 actions from {valid call, two calls back to back, call split into up to 60 fragments incl. empty ones, two messages in one record, single bit flip, random bytes, fragment header declaring 2^31-1 bytes, credential length 2^32-1, truncated record followed by close, a record of 5-12 fragments of 512 KiB whose first fragment is a complete valid call (must be refused, never answered), READDIR/READDIRPLUS with cookies >= 2^63, 3-6 pipelined calls in one write}, under no, strict or per-operation rate limiting, plus one well-behaved probe connection, all interleaved by the random scheduler with arbitrary transport segmentation; network faults on half of the hostile connections: a client that pipelines 20-80 calls behind a 256-4096 byte window and does not read for 1-100 s (the server's writes block; what it reads afterwards must be an in-order duplicate-free prefix of the answers), client->server or server->client streams cut after 1-400 bytes (mid-record, mid-reply; lost replies on such a connection are not held against the server); oracle: no panic escapes any goroutine; every well-formed call is answered once, in order, with its XID (also on the probe connection afterwards); after an undecodable stream the server closes the connection within its read timeout (75 simulated s); runtime TotalAlloc growth while the server digests a hostile message stays below 8 MiB (judged in runs without megabyte-sized client traffic); after the last call nothing more arrives (a call is answered at most once); replies that do come decode strictly; the two-part record is cut at a drawn byte, at the start of an embedded framed payload, exactly between two fragments of the record, or inside the four bytes of the record mark; non-trivial = every run; distinct by event digest",
 		Gen:  genC15, New: func() any { return &WireScn{} }, Run: runWire, Shrink: shrinkWire, Real: wireReal, Stubbed: seqStubbed})
 	Register(&Prop{ID: "C09", Level: "exploration",
 		Rule: "one case = one client from one of 9 peer addresses (IPv4, IPv6, IPv4-mapped, loopback; ports either side of 1024) sending 3-10 well-formed calls of any program/procedure to a server whose AllowedIPs is one of 14 lists (single addresses, CIDRs of prefix length 0,1,8,24,30,31,32,33(malformed), IPv6, IPv4-mapped, malformed entries, lists in which every entry is malformed, single IPv6 hosts) with Secure on/off, optionally switched to another such policy at runtime on the live connection through UpdatePolicyOptions or UpdateExportOptions; oracle: independent membership function (bit arithmetic over the normalised address); a peer excluded by every policy possibly in force gets MSG_DENIED (or is disconnected at accept time) and causes no backend call; a peer admitted by every such policy is never denied; 30% of the cases are the lock-out motif: 2-3 clients, all admitted at first, keep sending GETATTR/LOOKUP/ACCESS/READ/READDIR(PLUS) calls (2-5 workers, optional backend stall of 2 ms-1.1 s, every interleaving incl. the windows after each unlock decided by the seeded scheduler) while the administrator installs an allow-list (or the secure-port rule) that excludes every one of them - requests overlapping the update may be judged by either policy, but once the update has returned no backend call begins any more; non-trivial = every run; distinct by event digest. The input space (addresses x lists) is sampled.",
 		Gen:  genC09, New: func() any { return &WireScn{} }, Run: runWire, Shrink: shrinkWire, Real: wireReal, Stubbed: seqStubbed})
 	Register(&Prop{ID: "C08", Level: "exploration",
-		Rule: "one case = 1-3 clients sending 4-13 calls biased to the 11 mutating procedures (well-formed, truncated, garbage and oversize arguments, arbitrary credentials) while an admin toggles ReadOnly 1-3 times at drawn instants, with a backend call stalled so that the switch lands inside a request, every interleaving decided by the random scheduler; monitors: no modifying backend call (write-mode open, write, truncate, create, remove, rename, mkdir, symlink, chmod, chown, chtimes) BEGINS while the read-only policy is certainly in force (from the return of update(ReadOnly=true) to the call of the next update); every mutating procedure sent and answered inside such an interval fails; ACCESS grants none of MODIFY/EXTEND/DELETE there; also evaluated for read-only set at construction; non-trivial = every run; distinct by event digest",
+		Rule: "one case = 1-3 clients sending 4-13 calls biased to the 11 mutating procedures (well-formed, truncated, garbage and oversize arguments, arbitrary credentials) while an admin toggles ReadOnly 1-3 times at drawn instants, with a backend call stalled so that the switch lands inside a request, every interleaving decided by the random scheduler; monitors: no modifying backend call (write-mode open, write, truncate, create, remove, rename, mkdir, symlink, chmod, chown, chtimes) BEGINS while the read-only policy is certainly in force (from the return of update(ReadOnly=true) to the call of the next update); every mutating procedure sent and answered inside such an interval fails; ACCESS grants none of MODIFY/EXTEND/DELETE there; also evaluated for read-only set at construction; half of the time-out motif runs shorten the per-procedure time-outs (150-400 ms) instead and stall a data-path backend call (open for writing, WriteAt, Sync, Create, Truncate) for 2-6 s while the switch to read-only is made; non-trivial = every run; distinct by event digest",
 		Gen:  genC08, New: func() any { return &WireScn{} }, Run: runWire, Shrink: shrinkWire, Real: wireReal, Stubbed: seqStubbed})
 }
